@@ -26,6 +26,7 @@ RULE = ('precedence: for each of 12 keys (9 documented, 3 unknown) a seeded choi
         'or a prefix matched; distinct by canonical case')
 ASSUMPTIONS = ['prefix items are non-empty and contain no comma', 'equality of poll cadence is judged in logical terms '
                '(timer thread alive and >= 3 polls within a generous watchdog), not by wall-clock period']
+RULE += "; the shortened file name as the collector's frames carry it (parse_short_name) for every classified path, paths in which the text of the prefix comes up again further down"
 REQUIRE = {'frame_short_names_compared': 1000, 'two_start_sessions': 5, 'late_environment_reads': 30, 'function_settings_read_twice': 4, 'precedence_reads': 400, 'behaviour_sessions': 20, 'classifications': 5000, 'classified_after_other_files': 1500, 'prefix_matched': 1500,
            'exclusion_won': 200, 'reclassified_snapshots': 40, 'hosts_with_unnormalised_file_names': 1}
 SHARD_TIMEOUT = {'quick': 400, 'thorough': 2400}
